@@ -216,6 +216,58 @@ pub fn generate(seed: u64) -> Sc {
     }
 }
 
+/// bounded-exhaustive part: every trunk length n in 1..=max, every fork point f in 0..=n
+/// (f == n: no fork), branch length in {1,2,5}, main tip in {genesis, fork point, trunk tip};
+/// then EVERY (tip, number) query for the trunk tip and the branch tip, number 0..=tip+1
+pub fn enum_total(max_trunk: u64) -> u64 {
+    (1..=max_trunk).map(|n| (n + 1) * 9).sum()
+}
+
+pub fn generate_enum(index: u64) -> Sc {
+    let mut rest = index;
+    let mut n = 1u64;
+    while rest >= (n + 1) * 9 {
+        rest -= (n + 1) * 9;
+        n += 1;
+    }
+    let f = rest / 9;
+    let b = [1u64, 2, 5][(rest % 9 / 3) as usize];
+    let m = rest % 3;
+    let mut ops = vec![Op::Extend { from: 0, count: n, first_id: 1 }];
+    let main = match m {
+        0 => 0,
+        1 => f,
+        _ => n,
+    };
+    // half of the cases store the main chain before the fork's headers arrive
+    if main != 0 && (f + n) % 2 == 0 {
+        ops.push(Op::Store { id: main });
+    }
+    let mut tips = vec![(n, n)];
+    if f < n {
+        ops.push(Op::Extend { from: f, count: b, first_id: n + 1 });
+        tips.push((n + b, f + b));
+    }
+    if main != 0 && (f + n) % 2 == 1 {
+        ops.push(Op::Store { id: main });
+    }
+    if m == 2 && n >= 3 {
+        ops.push(Op::Forget { id: n - 1 });
+        ops.push(Op::Forget { id: n / 2 });
+    }
+    for (tip, tn) in tips {
+        for number in 0..=tn + 1 {
+            ops.push(Op::Query { tip, number });
+        }
+        ops.push(Op::Locator { tip });
+    }
+    Sc {
+        engine: ENGINE.into(),
+        seed: index,
+        ops,
+    }
+}
+
 pub fn exec(sc: &Sc) -> RunResult {
     let mut cx = Ctx::new(sc.seed);
     let genesis_hash = h32(SPACE, 0);
